@@ -90,6 +90,24 @@ CHECKS = {
         design_ref="DESIGN.md section 3 C12, section 8.4n",
         technique="provenance with a units table (byte-valued vs character-valued sources) restricted to arithmetic combination; parent-dependence of derived positions; field-to-field mapping",
     ),
+    "C09": dict(
+        category="other",
+        text="Decides the token and comment conservation of the formatter's tree walk, a structural necessary condition of 'formatting only "
+             "changes layout': each of the 316 provided methods of the current-grammar VerylWalker visits every child of its node (derived "
+             "from the generated ADTs) with the child's own method, on every path of the child's presence context and in source order, and "
+             "TokenCollector - the verbatim copier of #[fmt(skip)] items and embed bodies - overrides only veryl_token and keeps every "
+             "token and comment; each of the 136 overrides of `impl VerylWalker for Formatter` does the same for its node, a visit being a "
+             "walker method, a token helper on a terminal's token, emit_trailing_comments on a trailing comma (the comma may go, its comments "
+             "may not), a helper checked as a walker of its parameter's type, a closure run once by aligned_case_arm, or deeper calls that "
+             "cover an inlined child; alignment-pass-only paths are excluded; the token sink pushes the token's own text and every comment's "
+             "own text on every emission path. On its first run it found F25 (the provided mixin_declaration skipped the semicolon: `veryl "
+             "fmt` broke #[fmt(skip)] interfaces; shown, fixed) and F26 (empty `#()` / `()` of an instance are dropped with their comments: "
+             "deliberate, recorded as known). Two overrides (inst_parameter_item, inst_port_item) delegate through an Option::map closure "
+             "the engine does not follow and are reported undecided. It does not decide that the spacing written between two tokens "
+             "re-lexes to the same tokens, the renderer (C28), nor the equality of the emitted SystemVerilog.",
+        design_ref="DESIGN.md section 3 C09, section 8.4q",
+        technique="walker must-visit analysis: leaves derived from ADT facts vs visits in MIR (access paths through Option/Vec/variant contexts, helper and closure inlining), absence-edge path search per presence context, order by reachability",
+    ),
     "C23": dict(
         category="other",
         text="Decides the structural necessary conditions of `veryl migrate` keeping every token and comment except the for-loop index "
